@@ -21,7 +21,8 @@ ALT = REPO != "/repo"
 ALLOWED_AXIOMS = {"propext", "Classical.choice", "Quot.sound"}
 FORBIDDEN_RE = re.compile(
     r"\b(sorry|admit|native_decide|bv_decide|implemented_by)\b|^\s*axiom\s|\bunsafe\s|maxHeartbeats\s+0\b"
-    r"|@\[\s*extern\b|@\[\s*csimp\b|^\s*(?:private\s+|protected\s+)?opaque\s|\bpartial\s+def\b",
+    r"|@\[[^\]]*\bextern\b|@\[[^\]]*\bcsimp\b|\battribute\s*\[[^\]]*\b(?:extern|csimp|implemented_by)\b"
+    r"|^\s*(?:private\s+|protected\s+|noncomputable\s+)*opaque\s|\bpartial\s+def\b",
     re.M,
 )
 # The only foreign bindings the models may contain: three libm functions at `Float` that Lean's core does not expose, declared
